@@ -32,6 +32,8 @@ def config(W, need_state=True):
         W.assume(fs > 0); W.assume(olap >= 0); W.assume(olap < 1); W.assume(bmin >= 1); W.assume(bmin * 2 < N); W.assume(Lmin <= N)
         q = z3.Int("nice!q"); qb = z3.Int("nice!qb")
         W.nice += [olap.t * 8 == z3.ToReal(q), fs.t == 1, bmin.t * 2 == z3.ToReal(qb), N.t <= 64, Kdes.t <= 64, Jdes.t <= 64]
+        q2 = z3.Int("tiny!q"); qb2 = z3.Int("tiny!qb")
+        W.tiny += [olap.t * 2 == z3.ToReal(q2), fs.t == 1, bmin.t == z3.ToReal(qb2), bmin.t <= 4, N.t <= 16, Kdes.t <= 8, Jdes.t <= 8, Lmin.t <= 4]
     return dict(N=N, fs=fs, olap=olap, bmin=bmin, Lmin=Lmin, Jdes=Jdes, Kdes=Kdes)
 
 
